@@ -283,6 +283,7 @@ Section BinaryLevel.
 End BinaryLevel.
 
 (* ---- composition of the levels ------------------------------------------------------------------------------ *)
+Ltac Zify.zify_post_hook ::= idtac.
 (* holder of a record for rank t after the level with half length 2^j *)
 Definition broute (j G holder t : Z) : Z :=
   let h := 2 ^ j in
@@ -303,8 +304,8 @@ Proof.
   replace (2 ^ (j + 1)) with (2 * 2 ^ j) by (rewrite Z.pow_add_r by lia; ring).
   rewrite (binary_peers_spec j G Hj HG HW holder Hh). cbn [fst].
   destruct (binary_routing j G Hj HG HW holder t Hh Ht Hm) as [Hs|[Hne [Hp Hc]]].
-  - rewrite Hs, Z.eqb_refl. split; [exact Hh|exact Hs].
-  - destruct (t mod (2 * 2 ^ j) =? holder mod (2 * 2 ^ j)) eqn:E; [lia|]. split; assumption.
+  - rewrite Hs, Z.eqb_refl. split; [exact Hh|reflexivity].
+  - destruct (Z.eqb_spec (t mod (2 * 2 ^ j)) (holder mod (2 * 2 ^ j))) as [E|E]; [contradiction|]. split; assumption.
 Qed.
 
 (* DELIVERY: after the levels j0 .. j0+n-1 with 2^(j0+n) >= G every record is at its addressee *)
@@ -340,9 +341,46 @@ Proof.
   { intros f0 t Hf Ht. apply bdeliver_correct; try assumption; try lia. change (2 ^ 0) with 1. rewrite !Z.mod_1_r. reflexivity. }
   split.
   - intros [[m [Hm Hin]] [t [Ht Hdel]]]. apply in_seq in Hin. assert (Hf : 0 <= f < G) by lia.
-    split; [exact Hf|]. rewrite Hd in Hdel by (try assumption; eapply HR; eassumption).
+    split; [exact Hf|]. rewrite Hd in Hdel by (first [assumption | eapply HR; eassumption]).
     assert (t = p) by lia. subst t. exact Ht.
   - intros [Hf Hin]. split.
     + exists (Z.to_nat f). split; [lia|apply in_seq; lia].
     + exists p. split; [exact Hin|]. rewrite Hd by assumption. apply Z.eqb_refl.
+Qed.
+
+(* ---- the same statements about the GENERATED peer computation ------------------------------------------------- *)
+(* peer and peer2 as the code computes them at the level with half length 2^j (half = bhalf, see bhalf_test) *)
+Definition bpeer (j G me : Z) : Z := fst (binary_peers me (2 ^ j) G (2 * 2 ^ j) (bhalf (2 ^ j) me)).
+Definition bpeer2 (j G me : Z) : Z := snd (binary_peers me (2 ^ j) G (2 * 2 ^ j) (bhalf (2 ^ j) me)).
+Definition bstart (j me : Z) : Z := gstart (2 ^ j) 2 me.      (* first rank of the group of 2 * 2^j ranks *)
+
+(* MATCHING: q posts its send of the level to me (peer >= 0 and peer = me)  iff  me posts a receive that q's
+   message satisfies: the one guarded by `peer >= start` or the one guarded by `peer2 >= 0` *)
+Theorem binary_matching_gen j G me q : 0 <= j -> 0 < G <= BIG -> 2 * 2 ^ j <= BIG -> 0 <= me < G -> 0 <= q < G ->
+  (bpeer j G q = me <->
+   (q = bpeer j G me /\ bstart j me <= bpeer j G me) \/ (q = bpeer2 j G me /\ 0 <= bpeer2 j G me)).
+Proof.
+  intros Hj HG HW Hme Hq. unfold bpeer, bpeer2, bstart.
+  rewrite (binary_peers_spec j G Hj HG HW q Hq), (binary_peers_spec j G Hj HG HW me Hme). cbn [fst snd].
+  rewrite (binary_matching j G Hj HG HW me q Hme Hq). unfold brecv1_ok. rewrite Z.leb_le. reflexivity.
+Qed.
+
+Theorem binary_sources_distinct_gen j G me : 0 <= j -> 0 < G <= BIG -> 2 * 2 ^ j <= BIG -> 0 <= me < G ->
+  0 <= bpeer2 j G me -> bpeer2 j G me <> bpeer j G me /\ bpeer2 j G me <> me /\ bpeer j G me <> me.
+Proof.
+  intros Hj HG HW Hme. unfold bpeer, bpeer2. rewrite (binary_peers_spec j G Hj HG HW me Hme). cbn [fst snd]. intros H2.
+  destruct (binary_sources_distinct j G Hj me Hme H2) as [A B]. split; [exact A|split; [exact B|]].
+  unfold bsend_spec, sendp. cbv zeta. assert (Hh : 0 < 2 ^ j) by (apply Z.pow_pos_nonneg; lia).
+  pose proof (bhalf_range (2 ^ j) me Hh ltac:(lia)) as Ha.
+  assert (Ha01 : bhalf (2 ^ j) me = 0 \/ bhalf (2 ^ j) me = 1) by lia.
+  destruct Ha01 as [-> | ->]; match goal with |- context [if ?c then _ else _] => destruct c end; lia.
+Qed.
+
+Theorem binary_routing_gen j G me t : 0 <= j -> 0 < G <= BIG -> 2 * 2 ^ j <= BIG -> 0 <= me < G -> 0 <= t < G ->
+  t mod 2 ^ j = me mod 2 ^ j ->
+  (t mod (2 * 2 ^ j) = me mod (2 * 2 ^ j)) \/
+  (t mod (2 * 2 ^ j) <> me mod (2 * 2 ^ j) /\ 0 <= bpeer j G me < G /\ t mod (2 * 2 ^ j) = bpeer j G me mod (2 * 2 ^ j)).
+Proof.
+  intros Hj HG HW Hme Ht Hm. unfold bpeer. rewrite (binary_peers_spec j G Hj HG HW me Hme). cbn [fst].
+  apply binary_routing; assumption.
 Qed.
